@@ -395,6 +395,12 @@ def streams():
             {'spec': {'gen': 'vhdx', 'params': {'meta_off': 256 * 1024, 'region_count': 2048, 'tail': 100}}},
             {'spec': {'gen': 'vhdx', 'params': {'meta_off': 256 * 1024, 'meta_sig': 'metadatx', 'tail': 100}}},
             {'spec': {'gen': 'vhdx', 'params': {'meta_off': 256 * 1024, 'tail': 100}}},
+            # every eat_chunk accepts these, but what the inspectors derive from them does not compute: a virtual-disk-size
+            # item of 0 / 4 / 16 bytes (VHDX virtual_size), a LUKS header with an absurd payload offset
+            {'spec': {'gen': 'vhdx', 'params': {'meta_off': 256 * 1024, 'item_len': 4, 'tail': 100}}},
+            {'spec': {'gen': 'vhdx', 'params': {'meta_off': 256 * 1024, 'item_len': 0, 'tail': 100}}},
+            {'spec': {'gen': 'vhdx', 'params': {'meta_off': 256 * 1024, 'item_len': 16, 'tail': 100}}},
+            {'spec': {'gen': 'luks', 'params': {'payload': (1 << 32) - 1, 'total': 3000}}},
             {'spec': {'gen': 'raw', 'params': {'kind': 'random', 'total': 2 * 1024 * 1024 + 4097, 'seed': 6}}},   # chunks > 1 MiB
         ]
     return STREAMS
